@@ -12,7 +12,7 @@
              the serialised attribute lists of every class are regenerated (Gen/Serial.v). *)
 From Coq Require Import ZArith List Bool String.
 From ACN Require Import Base.Num Base.ResumeBase Gen.ResumeZ_Z Gen.Serial
-  Model.Resume Model.Registry Proofs.Resume Proofs.Registry.
+  Model.Resume Model.Registry Proofs.Resume Proofs.ResumeProg Proofs.Registry.
 Import ListNotations.
 Open Scope Z_scope.
 
@@ -21,7 +21,8 @@ Open Scope Z_scope.
 (* ------------------------------------------------------------------------------------------ *)
 
 (* FULL STATEMENT (refuted, see Props/C09_findings.v): the theorem below without `queue_ok s`.
-   queue_ok s says of every pending event e:  _iteration <= e.timestamp;  processing an event of
+   `inv` is the representation invariant of the queue implementation (the heap invariant for
+   EventQueue, `True` for the list queue).  queue_ok s says of every pending event e:  _iteration <= e.timestamp;  processing an event of
    e's type sets _resolve (true for Plugin / Unplug / Recompute, computed from the regenerated
    _process_event; false for the base class Event);  a session to be plugged in at e.timestamp
    leaves later: e.timestamp < ev.departure.
@@ -31,25 +32,51 @@ Open Scope Z_scope.
    sref, then calling run() again on sc ends in the same sref — the whole state: pilots, rates,
    energies (inside the abstract St), event_history, _iteration, queue. *)
 Theorem C09_resume_partial :
-  forall (QI : queue_impl), queue_laws QI ->
+  forall (QI : queue_impl) (inv : Qt QI -> Prop), queue_laws QI inv ->
   forall (St Sched : Type) (R : rest_ops St Sched) (sched : sim QI St -> Sched)
          (fuel k : nat) (s sc sref : sim QI St),
-    queue_ok QI St s ->
+    inv (s_queue s) /\ queue_ok QI St s ->
     run QI St Sched R sched fuel (Some k) s = Raised sc ->
     run QI St Sched R sched fuel None s = Done sref ->
     run QI St Sched R sched fuel None sc = Done sref.
 Proof.
-  exact (fun QI QL St Sched R sched fuel k s sc sref Hq Hc Hr =>
-           proj1 (resume_one QI QL St Sched R sched fuel k s sc sref Hq Hc Hr)).
+  exact (fun QI inv QL St Sched R sched fuel k s sc sref Hq Hc Hr =>
+           proj1 (resume_one QI inv QL St Sched R sched fuel k s sc sref Hq Hc Hr)).
 Qed.
 Print Assumptions C09_resume_partial.
 
+(* The order of the statements in the loop is not taken on trust: the body of the `while` loop
+   of Simulator.run is regenerated statement by statement (Gen/Serial.run_loop_prog; statements
+   that do not touch the loop state are opaque operations `SS <text>` on the rest of the state),
+   and executing that program IS the loop the theorems are about. *)
+Theorem C09_loop_is_regenerated :
+  forall (QI : queue_impl) (St Sched : Type) (N : rest_ops St Sched)
+         (SS : string -> Z -> option Sched -> option Z -> St -> St) (sched : sim QI St -> Sched)
+         (guard : bool -> bool -> bool) (fuel : nat) (k : option nat) (s : sim QI St),
+    run_prog QI St Sched N SS sched guard fuel k s
+    = run_gen QI St Sched (R_of St Sched N SS) sched guard fuel k s.
+Proof. exact run_prog_eq. Qed.
+Print Assumptions C09_loop_is_regenerated.
+
+(* hence the resume theorem for the regenerated loop *)
+Theorem C09_resume_regenerated_loop_partial :
+  forall (QI : queue_impl) (St Sched : Type) (N : rest_ops St Sched)
+         (SS : string -> Z -> option Sched -> option Z -> St -> St) (sched : sim QI St -> Sched)
+         (inv : Qt QI -> Prop), queue_laws QI inv ->
+  forall (fuel k : nat) (s sc sref : sim QI St),
+    inv (s_queue s) /\ queue_ok QI St s ->
+    run_prog QI St Sched N SS sched Run_guard fuel (Some k) s = Raised sc ->
+    run_prog QI St Sched N SS sched Run_guard fuel None s = Done sref ->
+    run_prog QI St Sched N SS sched Run_guard fuel None sc = Done sref.
+Proof. exact resume_prog. Qed.
+Print Assumptions C09_resume_regenerated_loop_partial.
+
 (* any number of interruptions, each followed by run() again *)
 Theorem C09_resume_repeatedly_partial :
-  forall (QI : queue_impl), queue_laws QI ->
+  forall (QI : queue_impl) (inv : Qt QI -> Prop), queue_laws QI inv ->
   forall (St Sched : Type) (R : rest_ops St Sched) (sched : sim QI St -> Sched)
          (ks : list nat) (fuel : nat) (s sref : sim QI St),
-    queue_ok QI St s ->
+    inv (s_queue s) /\ queue_ok QI St s ->
     run QI St Sched R sched fuel None s = Done sref ->
     run_chain QI St Sched R sched fuel ks s = Done sref.
 Proof. exact resume_chain. Qed.
@@ -68,12 +95,12 @@ Print Assumptions C09_interrupted_or_same.
 (* the state left behind by the raising scheduler passes the loop test again, re-processes no
    event, and is again well formed (the reason the resumed run continues identically) *)
 Theorem C09_reentry :
-  forall (QI : queue_impl), queue_laws QI ->
+  forall (QI : queue_impl) (inv : Qt QI -> Prop), queue_laws QI inv ->
   forall (St Sched : Type) (R : rest_ops St Sched) (s : sim QI St),
-    queue_ok QI St s -> Run_guard (s_resolve s) (q_empty QI (s_queue s)) = true ->
+    inv (s_queue s) /\ queue_ok QI St s -> Run_guard (s_resolve s) (q_empty QI (s_queue s)) = true ->
     let s1 := pop_and_process QI St Sched R s in
     Run_guard (s_resolve s1) (q_empty QI (s_queue s1)) = true
-    /\ pop_and_process QI St Sched R s1 = s1 /\ queue_ok QI St s1.
+    /\ pop_and_process QI St Sched R s1 = s1 /\ (inv (s_queue s1) /\ queue_ok QI St s1).
 Proof. exact reentry. Qed.
 Print Assumptions C09_reentry.
 
@@ -92,7 +119,7 @@ Print Assumptions C09_resume_old_guard_refuted.
 
 (* the hypotheses are satisfiable: a queue implementation satisfying the laws, a well-formed
    history with two sessions and a RecomputeEvent *)
-Example C09_queue_laws_example : queue_laws ListQ.
+Example C09_queue_laws_example : queue_laws ListQ (fun _ => True).
 Proof. exact ListQ_laws. Qed.
 Example C09_queue_ok_example : queue_ok ListQ dstate (init_sim_list ex_events (Some 2)).
 Proof. exact ex_qok. Qed.
@@ -222,10 +249,10 @@ Print Assumptions C09_reload_identity.
 
 (* corollary: dump at the interruption point, load, give the scheduler again, run *)
 Theorem C09_resume_after_load_partial :
-  forall (QI : queue_impl), queue_laws QI ->
+  forall (QI : queue_impl) (inv : Qt QI -> Prop), queue_laws QI inv ->
   forall (St Sched : Type) (R : rest_ops St Sched) (sched : sim QI St -> Sched)
          (rest0 : St) (queue0 : Qt QI) (fuel k : nat) (s sc sref : sim QI St),
-    queue_ok QI St s ->
+    inv (s_queue s) /\ queue_ok QI St s ->
     run QI St Sched R sched fuel (Some k) s = Raised sc ->
     run QI St Sched R sched fuel None s = Done sref ->
     run QI St Sched R sched fuel None (reload QI St rest0 queue0 sc) = Done sref.
